@@ -20,6 +20,10 @@ HTTP_ENTRIES = ["sse_client", "SSETransport", "http_client", "StreamableHTTPTran
 HTTP_TEXTS = ["plain failure", "Method not found", "Resource not found: file:///x", "upstream said 404", "405 Method Not Allowed",
               "method not allowed", "cancel scope", "connection refused", "timed out", "SSE endpoint not found", ""]
 HTTP_CODES = [-32601, -32603, -32002, -32000, 1404, -32405, 0]
+# members a server may put into the error object besides code and message (Node servers add stack / name, others details ...)
+EXTRAS = {"none": {}, "data": {"data": {"k": [1, None]}}, "data-null": {"data": None}, "stack": {"stack": "Error: boom\n    at f (x.js:1)"},
+          "name+details": {"name": "McpError", "details": {"retriable": False}, "data": "d"}, "text": {"text": "shadow"},
+          "many": {"stack": "s", "cause": {"code": 1}, "retriable": True, "errno": -2, "_meta": {}}}
 
 
 def run_one(ctl: explorer.Ctl, cfg: Dict[str, Any]) -> Dict[str, Any]:
@@ -45,7 +49,7 @@ def run_one(ctl: explorer.Ctl, cfg: Dict[str, Any]) -> Dict[str, Any]:
                     "serverInfo": {"name": "s", "version": "1"}}}) + "\n").encode())
             elif "id" in d and d.get("method"):
                 proc.stdout.feed((json.dumps({"jsonrpc": "2.0", "id": d["id"],
-                                              "error": {"code": code, "message": text}}) + "\n").encode())
+                                              "error": {"code": code, "message": text, **EXTRAS[cfg.get("extra", "none")]}}) + "\n").encode())
 
     proc.on_stdin = on_stdin
     info: Dict[str, Any] = {}
@@ -66,7 +70,7 @@ def run_one(ctl: explorer.Ctl, cfg: Dict[str, Any]) -> Dict[str, Any]:
         await send_message(read, write, "tools/list", timeout=1.5, message_id="q1", **kw)
         info["returned_normally"] = True
 
-    err_body = {"jsonrpc": "2.0", "id": "q1", "error": {"code": code, "message": text}}
+    err_body = {"jsonrpc": "2.0", "id": "q1", "error": {"code": code, "message": text, **EXTRAS[cfg.get("extra", "none")]}}
     if cfg["entry"] in HTTP_ENTRIES:
         import httpx
 
@@ -159,6 +163,7 @@ def run_one(ctl: explorer.Ctl, cfg: Dict[str, Any]) -> Dict[str, Any]:
     if kind != "classified" or cls != want_cls or got_code != code:
         sig = {"class": "error-did-not-leave-the-context-as-the-classified-exception", "entry": cfg["entry"],
                **({"call_options": cfg["opts"]} if cfg.get("opts") else {}),
+               **({"error_object_members": cfg["extra"]} if cfg.get("extra") else {}),
                "left_as": kind if kind != "classified" else f"{cls}/{got_code}",
                "text_kind": "mentions-cancel-scope" if "cancel" in text.lower() and "scope" in text.lower() else
                ("mentions-json-object" if "json object" in text.lower() else
@@ -176,5 +181,8 @@ def add_part(res: core.Result, tier: str) -> None:
     # the call's optional arguments (a token that never fires, a progress callback) do not change how the error surfaces
     cfgs += [{"entry": e, "text": t, "code": c, "opts": o} for e in ("stdio_client", "http_client", "sse_client")
              for t in ("plain failure", "Method not found") for c in CODES + [-32002] for o in ("token", "progress", "both")]
+    # what else the error object carries does not change how it surfaces
+    cfgs += [{"entry": e, "text": t, "code": c, "extra": x} for e in ("stdio_client", "http_client", "sse_client")
+             for t in ("plain failure", "") for c in CODES + [-32002] for x in EXTRAS if x != "none"]
     out = explorer.explore(RUN, cfgs, fidelity=True)
     sched.absorb(res, "iv-classified-error-leaves-the-client-context", RUN, out, cfgs, min_outcomes=1)
